@@ -111,18 +111,36 @@ def check_write_block(ctx):
     wr = one_call(ctx, wb, "ldb_tablegen_write_raw_block")[0][2]
     ctx.check(argkey(wr, 2) == "type", "T6-block-trailer", "writer:type-arg", wb.name, site(wb, wr), "the type byte describes what was written",
               "type argument changed")
-    g = xgraph(ctx.P, wb)
-    for b, i, e in wb.events("asg"):
-        if key(e["lhs"]) == "block_contents" and key(e["rhs"]) == "compressed":
-            a2 = g.must_at(b, i)
-            ctx.check(holds(a2, ("==", "type", 1)), "T6-block-trailer", "writer:compressed-implies-type", wb.name, site(wb, e),
-                      "compressed bytes are written only with the snappy type", "compressed block may be written with another type")
-        if key(e["lhs"]) == "block_contents" and key(e["rhs"]) == "(&raw)":
-            nb = [x for x in wb.blocks[b].ev if x["e"] == "asg" and key(x["lhs"]) == "type"]
-            a2 = g.must_at(b, i)
-            ctx.check(holds(a2, ("==", "type", 0)) or (nb and const_val(nb[0]["rhs"]) == 0), "T6-block-trailer",
-                      "writer:raw-implies-none@%s" % e["l"].split(":")[1], wb.name, site(wb, e),
-                      "raw bytes are written with type none", "raw block may be written with the snappy type")
+    # the (contents, type) pair handed to the raw writer is consistent on every path
+    from ..rules import check_automaton, BAD
+
+    def step(q, e, st, b, i):
+        if q == BAD:
+            return q
+        c, t = q
+        if e["e"] == "asg" and key(e["lhs"]) == "block_contents":
+            c = "compressed" if key(e["rhs"]) == "compressed" else ("raw" if key(e["rhs"]) == "(&raw)" else "?")
+            return (c, t)
+        if e["e"] == "asg" and key(e["lhs"]) == "type":
+            v = const_val(e["rhs"])
+            return (c, v if v is not None else "?")
+        if is_call(e, "ldb_tablegen_write_raw_block"):
+            if c == "compressed" and t != 1:
+                return BAD
+            if c == "raw" and t != 0:
+                return BAD
+            if c == "?":
+                return BAD
+        return q
+
+    def edge(q, lit):
+        if q == BAD or lit is None:
+            return q
+        if lit[0] == "case" and key(lit[1]) == "type":
+            return (q[0], const_val(lit[2]))
+        return q
+    check_automaton(ctx, "T6-block-trailer", "writer:type-matches-contents", wb, ("?", "?"), step, edge,
+                    "compressed bytes are written with the snappy type and raw bytes with type none, on every path")
 
 
 def check_filter_builder(ctx):
